@@ -1979,7 +1979,9 @@ func (d *DFA) SearchReverseLimited(cache *DFACache, haystack []byte, start, end,
 	ft := cache.flatTrans
 	ftLen := len(ft)
 
-	for at := end - 1; at >= lowerBound; at-- {
+	at := end - 1
+scan:
+	for ; at >= lowerBound; at-- {
 		b := haystack[at]
 
 		classIdx := int(d.byteToClass(b))
@@ -2030,13 +2032,20 @@ func (d *DFA) SearchReverseLimited(cache *DFACache, haystack []byte, start, end,
 		// 1-byte match delay for reverse: match position is at+1
 		if cache.IsMatchState(sid) {
 			lastMatch = at + 1
+			// A match is known, so the caller returns after this scan. Drop the guard and
+			// finish the scan: a longer match (smaller start) may still exist below minStart.
+			lowerBound = start
 		}
 	}
 
 	// EOI for reverse: check delayed match at region start
 	eoi := cache.getState(sid)
 	if eoi != nil && containsNFAMatch(d.nfa, eoi.NFAStates()) {
-		lastMatch = lowerBound
+		lastMatch = at + 1
+		if lowerBound > start {
+			lowerBound = start
+			goto scan
+		}
 	}
 
 	if lowerBound > start && lastMatch < 0 {
